@@ -49,13 +49,18 @@ theorem handout_checks {cfg : Cfg} (hgood : Good cfg) {s s' : State} (a : Action
   obtain ⟨hg, _, hgB, hgT, hgR⟩ := hgood
   have old : ∀ {P : Prop}, s.callers[i]? = some y → P := fun h' => absurd hp (hnot y h')
   cases a with
+  | closeDC =>
+    simp only [step] at h
+    split at h
+    · cases h
+    · cases h; exact old hy
   | start j =>
     simp only [step, markDeadCfg_good hgR, hgB, hgT, if_true] at h
     split at h
     · split at h
       · cases h
         rcases setPc_using hy hp with ⟨_, h2⟩ | h'
-        · cases h2
+        · cases hcl : s.closed <;> rw [hcl] at h2 <;> simp at h2
         · exact old h'
       · cases h
     · cases h
@@ -136,6 +141,14 @@ theorem handout_checks {cfg : Cfg} (hgood : Good cfg) {s s' : State} (a : Action
               · cases h2
               · exact old h'
             · cases h
+          | dc =>
+            simp only at h
+            split at h
+            · cases h
+              rcases setPc_using hy hp with ⟨_, h2⟩ | h'
+              · cases h2
+              · exact old h'
+            · cases h
         · cases h
       · cases h
     · cases h
@@ -161,6 +174,14 @@ theorem handout_checks {cfg : Cfg} (hgood : Good cfg) {s s' : State} (a : Action
             · exact old h'
           · cases h
         | ctx =>
+          simp only at h
+          split at h
+          · cases h
+            rcases setPc_using hy hp with ⟨_, h2⟩ | h'
+            · cases h2
+            · exact old h'
+          · cases h
+        | dc =>
           simp only at h
           split at h
           · cases h
